@@ -209,6 +209,7 @@ def prop_C08(run):
     rules_idx.sk_match_locals(run)
     rules_idx.sk_instruction_flag(run)
     rules_idx.sk_flag_fresh(run)
+    rules_idx.line_scan_rules(run)
     rules_idx.index_insert_unconditional(run)   # every rule is listed in the prefix index
     rules_idx.matcher_candidate_order(run)      # both matchers hand over candidates in declaration order (F75)
     run.rules_run += ["GATE who-touches audit of the two optimisation switches", "FIX3", "TAB-idx writer/reader/matcher agreement of the rule-prefix index", "SK conservativeness of is_value_statically_known per Expr variant"]
@@ -226,6 +227,7 @@ def prop_C07(run):
     rules_idx.lookahead_skips_comments(run)
     rules_idx.precedence_per_operand(run)
     rules_idx.index_insert_unconditional(run)
+    rules_idx.line_scan_rules(run)
     run.rules_run += ["TAB-idx (case normalisation, token classes, whitespace skipping)", "MATCH shape of match_with_rule / match_instr selection"]
 
 
@@ -483,6 +485,8 @@ def prop_C17(run):
     rules_asm.argument_context_rules(run)
     rules_asm.new_deepened_rule(run)
     rules_asm.block_label_align(run)
+    import rules_idx as _ri
+    _ri.line_scan_rules(run)                    # a line of an asm block ends outside braces only
     rules_asm.inner_failure_rule(run)          # a block that cannot be encoded fails its candidate only (F79, listed)
     import rules_mpt as _rm
     _rm.alignment_rules(run)                   # labels of a block obey the address-unit rule like labels written in place
